@@ -5,14 +5,36 @@ import (
 
 	"verif/harness/core"
 	"verif/harness/obs"
+
+	"github.com/z7zmey/php-parser/pkg/ast"
 )
 
 // C04 — tokens carry exact source text, offsets and lines, and tile the source.
 // The monitor itself is checkTokens (tokens.go).
 
+// a tree returned earlier must stay what it was while later parses run (shared or recycled
+// lexer/pool state would show here): the previous tree of this worker is re-read after every parse
+var c04Prev struct {
+	root ast.Vertex
+	src  []byte
+	ver  string
+	fp   string
+}
+
 func c04Case(c *core.Ctx, pc parseCase) {
 	c.Inflight(pc.Src, "C04 parse "+pc.Ver)
 	pr := obs.Parse(pc.Src, pc.Ver, true)
+	if c04Prev.root != nil {
+		if now := obs.Fingerprint(c04Prev.root, false); now != c04Prev.fp {
+			c.Violation("tok|earlier-tree-changed-by-later-parse|"+c13Where(c04Prev.fp, now), "a tree returned by an earlier Parse call changed while a later, unrelated Parse call ran: "+obs.FirstDiff(c04Prev.fp, now), core.W(c04Prev.src, c04Prev.ver).With("later_input", obsQuote(pc.Src, 200)))
+		}
+		c.Add("earlier_trees_re-read_after_a_later_parse", 1)
+		c04Prev.root = nil
+	}
+	if pr.Panic == nil && pr.Root != nil && len(pc.Src) < 4000 {
+		c04Prev.root, c04Prev.src, c04Prev.ver = pr.Root, pc.Src, pc.Ver
+		c04Prev.fp = obs.Fingerprint(pr.Root, false)
+	}
 	if pr.Panic != nil {
 		c.Add("parses_that_panicked(C01's business)", 1)
 		return
